@@ -596,15 +596,20 @@ const KNAMES: &[&str] = &["n", "", "m", "名前", "n\u{0}", "nn", "http_requests
 const DISTINCT: &[&str] = &["k0", "k1", "k2", "", "é", "k10", "a", "ab", "b", "日本", "K0", "z"];
 
 fn gen_contents(r: &mut Rng, out: &mut Out) -> Vec<Content> {
-    let n = match r.weighted(&[1, 2, 6, 4, 5, 2, 2]) {
+    let n = match r.weighted(&[1, 2, 6, 4, 5, 2, 2, 2]) {
         0 => 0,
         1 => 1,
         2 => 2,
         3 => 3,
         4 => r.range(4, 7),
         5 => 8,
-        _ => r.range(9, 10),
+        6 => r.range(9, 10),
+        // long label lists: library sorts switch algorithms with the length (e.g. at 20 elements)
+        _ => r.range(11, 45),
     };
+    if n > 10 {
+        out.count("labels: more than 10");
+    }
     let distinct_mode = r.chance(1, 3);
     out.count(if distinct_mode { "mode: distinct label names" } else { "mode: names from a pool of 3" });
     let pick3 = |r: &mut Rng, src: &[&'static str]| -> Vec<&'static str> { (0..3).map(|_| *r.pick(src)).collect() };
@@ -626,7 +631,17 @@ fn gen_contents(r: &mut Rng, out: &mut Out) -> Vec<Content> {
     let base: Content = (knames[0].to_string(), draw(r, n));
     // a permutation
     let mut perm = base.clone();
-    match r.below(4) {
+    match r.below(if distinct_mode { 4 } else { 7 }) {
+        4 | 5 | 6 => {
+            // a permutation that keeps labels of the same name in their relative order (so the keys stay equal
+            // even with repeated names): stable sort by a random rank per name
+            let mut uniq: Vec<String> = perm.1.iter().map(|(k, _)| k.clone()).collect();
+            uniq.sort();
+            uniq.dedup();
+            let ranks: Vec<(String, usize)> = uniq.into_iter().map(|k| (k, r.below(1000))).collect();
+            perm.1.sort_by_key(|(k, _)| ranks.iter().find(|(n, _)| n == k).map(|x| x.1).unwrap_or(0));
+            out.count("perm: order-preserving among equal names");
+        }
         0 => perm.1.reverse(),
         1 if n > 0 => perm.1.rotate_left(1),
         _ => {
